@@ -77,11 +77,18 @@ def race_scenarios(rng, n_fast, n_paced):
     # producers slower than the sink, so that the backlog keeps touching zero while they still log:
     # the stop leaves its wait loop, quits and clears with posts arriving all the time
     for i in range(n_paced):
-        s = scn('race', 0, rng.choice([0, 1, 1, 2]), producers=rng.choice([1, 2, 2, 3]), per=rng.choice([25, 40]),
-                pace=rng.choice([1500, 2500, 4000]), stop=rng.choice(['reset', 'reset', 'quit']), cycles=rng.choice([2, 3, 4]),
-                seed=rng.randint(1, 10 ** 6))
         if i % 2 == 0:
-            s['yield'] = YIELDS[1 + (i // 2) % (len(YIELDS) - 1)]
+            # the region in which the backlog reaches zero again and again while posts keep arriving
+            s = scn('race', 0, 1, producers=2, per=40, pace=rng.choice([2000, 2500, 3000]), stop='reset', cycles=3,
+                    seed=rng.randint(1, 10 ** 6))
+            if i % 4 == 0:
+                s['yield'] = 'reset.quit:3000'
+        else:
+            s = scn('race', 0, rng.choice([0, 1, 1, 2]), producers=rng.choice([1, 2, 2, 3]), per=rng.choice([25, 40]),
+                    pace=rng.choice([1500, 2500, 4000]), stop=rng.choice(['reset', 'reset', 'quit']), cycles=rng.choice([2, 3, 4]),
+                    seed=rng.randint(1, 10 ** 6))
+            if i % 4 == 1:
+                s['yield'] = YIELDS[1 + (i // 4) % (len(YIELDS) - 1)]
         out.append(s)
     return out
 
@@ -128,7 +135,7 @@ def scenarios(chk):
             for d in ([0, 20] if not thorough else delays):
                 out.append(scn(p, b, d, cfg=rng.randint(0, 1) if b else 0))
         out.append(scn(p, 3, 1, **{'async': 0}))    # control: synchronous logger on the same exit path
-    out += race_scenarios(rng, 40 if thorough else 8, 24 if thorough else 6)
+    out += race_scenarios(rng, 40 if thorough else 8, 32 if thorough else 8)
     # a sink slower than wait(3000): the stop must still wait for the delivery
     out.append(scn('reset', 1, 3300, loop=1, after=0))
     if thorough:
@@ -302,9 +309,12 @@ def parse_model(line):
     return d
 
 
-def kind_for(s, kind):
+def kind_for(s, kind, r=None):
     if s['path'] in F5_PATHS and kind in ('hang', 'lost'):
         return 'exit_without_event_loop'
+    if s['path'] == 'leakapp' and kind == 'crash' and r is not None and 'MAIN_RETURN' in r['lines']:
+        # the singleton drains its backlog from a static destructor while the other exit handlers run
+        return 'crash_during_exit_drain'
     return kind
 
 
@@ -329,8 +339,9 @@ def replay_obj(s, r, problems, mv, kind):
          'model': mv.get('raw') if mv else None,
          'model_predicts_hang': (mv.get('stuck') == '1') if mv else None,
          'trace_head': collapse(r['lines'])[:25], 'trace_tail': collapse(r['lines'])[-25:], 'stacks': r.get('stacks')}
-    if s['path'] in F5_PATHS:
+    if s['path'] in F5_PATHS or s['path'] == 'leakapp':
         o['exit_path'] = s['path']
+    o['cfg'] = int(s.get('cfg', 0))
     return o
 
 
@@ -399,7 +410,7 @@ def run():
     extended = not proof_ok and not thorough
     if extended:
         # the skeleton (or a proof) no longer checks: search schedules harder before giving a verdict
-        more = race_scenarios(chk.rng, 12, 10) + widened_scenarios(chk.rng)
+        more = race_scenarios(chk.rng, 12, 24) + widened_scenarios(chk.rng)
         for i, s in enumerate(more):
             s['_n'] = len(scs) + i
         with ThreadPoolExecutor(max_workers=16) as ex:
@@ -459,8 +470,8 @@ def run():
         if r['facts'].get('foreign') and not probs and False:
             pass
         for kind, text in probs[:1]:
-            k = kind_for(s, kind)
-            by_kind.setdefault((k, s['path'] if k == 'exit_without_event_loop' else ''), []).append((s, r, probs))
+            k = kind_for(s, kind, r)
+            by_kind.setdefault((k, s['path'] if k in ('exit_without_event_loop', 'crash_during_exit_drain') else ''), []).append((s, r, probs))
     for (k, p), items in sorted(by_kind.items()):
         s, r, probs = min(items, key=lambda it: size_key(it[0]))
         obj = replay_obj(s, r, probs, r.get('model'), k)
@@ -500,6 +511,7 @@ def run():
         'recordings_rejected_by_model': sum(1 for _, r in pairs if not r['model'].get('ok')),
         'hang_prediction_agrees': sum(1 for _, r in pairs if (r['model'].get('stuck') == '1') == r['hung']),
         'unreproduced_disagreements': unreproduced,
+        'unreproduced_examples': [' '.join(argv_of(s)) + ' :: ' + r['unreproduced_disagreement'][:300] for s, r in pairs if r.get('unreproduced_disagreement')][:3],
         'messages_accepted_total': tot('posted'), 'messages_delivered_total': tot('delivered'),
         'boundary_hits': {k: tot(k) for k in ('wait_iterations', 'posts_during_wait_loop', 'sync_deliveries', 'moves',
                                              'stops_without_thread', 'first_check_empty', 'check_with_message_in_hand', 'foreign')},
